@@ -47,7 +47,10 @@ Obj(k, cls, n, s, id) == [k |-> k, cls |-> cls, n |-> n, s |-> s, id |-> id]
 NoObj == Obj("none", "", <<>>, <<>>, 0)
 
 AlignedClasses == {"AlignedPadding", "SubAligned"}
-ExactClasses == {"ExactPadding", "SubExact"}
+\* CustomPadding: a concrete Padding subclass written against the documented extension API
+\* (only _get_exact_dimensions_, returning four fixed margins); it is NOT an ExactPadding
+ExactClasses == {"ExactPadding", "SubExact", "CustomPadding"}
+IsCustom(o) == o.cls = "CustomPadding"
 CheckedSizeClasses == {"Size", "SubSize"}     \* constructor validates
 SizeClasses == CheckedSizeClasses \cup {"RawSize"}
 ColorClasses == {"Color", "SubColor"}
@@ -88,7 +91,8 @@ IsRenderSize(o) == o.k = "size" /\ o.cls \in CheckedSizeClasses /\ o.n[1] >= 1 /
 (* ---- equality, hashing, identity ---------------------------------------- *)
 (* "T" / "F", or "U" where the documentation does not decide:                *)
 (*  - paddings: "instances with equal fields compare equal" (of one class;   *)
-(*    an instance of a subclass against one of its base class: unspecified)  *)
+(*    an instance of a subclass against one of its base class: unspecified;  *)
+(*    a user-written Padding subclass: its author's business)                *)
 (*  - Size / RawSize / Color are tuples: tuple equality, whatever the class   *)
 Group(o) == CASE IsPad(o) -> "pad" [] IsTuple(o) -> "tuple" [] OTHER -> o.k
 
@@ -97,7 +101,7 @@ Eq3(a, b) ==
   ELSE IF Group(a) = "pad" THEN
     (IF a.k # b.k THEN "F"
      ELSE IF a.n # b.n \/ a.s # b.s THEN "F"
-     ELSE IF a.cls = b.cls THEN "T" ELSE "U")
+     ELSE IF a.cls = b.cls /\ ~IsCustom(a) THEN "T" ELSE "U")
   ELSE IF a.n = b.n THEN "T" ELSE "F"
 
 \* equal objects must hash equal (the only hashing law there is)
@@ -218,7 +222,7 @@ EvResolve(o, op) ==
   ELSE LET q == P!Resolve(AsPad(o), P!Sz(op.n[1], op.n[2])) IN Made(New("aligned", o.cls, <<q.w, q.h>>, o.s))
 EvToExact(o, rs, op) ==
   IF Rel(o) THEN Err(RelErr)
-  ELSE IF o.k = "exact" THEN Same(op.i)
+  ELSE IF o.k = "exact" /\ ~IsCustom(o) THEN Same(op.i)
   ELSE LET d == P!Dims(AsPad(o), rs) IN Made(New("exact", "ExactPadding", <<d.l, d.t, d.r, d.b>>, <<Fill(o)>>))
 EvGetPaddedSize(o, rs) ==
   IF Rel(o) THEN Err(RelErr)
@@ -229,6 +233,7 @@ EvPad(o, rs) ==       \* <<lines, columns of every line>> of the padded output
   IF Rel(o) THEN Err(RelErr) ELSE LET z == P!PaddedSize(AsPad(o), rs) IN Val(<<z.h, z.w>>)
 EvDimensions(o) == Val(o.n)
 EvMinSize(o) == Made(New("size", "RawSize", o.n, <<>>))
+EvNewAbstract == Err("TypeError")          \* Padding(...): "only concrete subclasses can be instantiated"
 EvProbe == Err("AttributeError")            \* setattr / delattr: instances are immutable
 EvNewSize(op) ==
   IF op.cls \in CheckedSizeClasses /\ (op.n[1] < 1 \/ op.n[2] < 1) THEN Err("ValueError")
@@ -257,6 +262,7 @@ Eval(S, op) ==
     [] nm = "new_aligned_default" -> EvNewAlignedDefault(op)
     [] nm = "new_exact" -> EvNewExact(op)
     [] nm = "new_exact_default" -> EvNewExactDefault(op)
+    [] nm = "new_abstract" -> EvNewAbstract
     [] nm = "resolve" -> EvResolve(o, op)
     [] nm = "to_exact" -> EvToExact(o, RS(S, op), op)
     [] nm = "get_padded_size" -> EvGetPaddedSize(o, RS(S, op))
@@ -278,7 +284,7 @@ Eval(S, op) ==
     [] nm = "from_hex" -> EvFromHex(o, op)
 
 \* operations that hand back an object (stored in slot dst when accepted)
-ObjectOps == {"new_aligned", "new_aligned_default", "new_exact", "new_exact_default", "resolve",
+ObjectOps == {"new_aligned", "new_aligned_default", "new_exact", "new_exact_default", "new_abstract", "resolve",
               "to_exact", "get_padded_size", "min_size", "rebuild", "new_size", "bypass", "replace",
               "new_color", "new_color_rgb", "hex", "rgb_hex", "new_str", "from_hex"}
 ValueOps == {"exact_dims", "pad", "dimensions", "rgb"}
@@ -305,15 +311,17 @@ WFOp(S, op) ==
   /\ CASE nm = "new_aligned" -> op.cls \in AlignedClasses /\ Len(op.n) = 2 /\ Len(op.s) = 3
                                 /\ op.s[1] \in HNames /\ op.s[2] \in VNames
        [] nm = "new_aligned_default" -> op.cls \in AlignedClasses /\ Len(op.n) = 2
-       [] nm = "new_exact" -> op.cls \in ExactClasses /\ Len(op.n) = 4 /\ Len(op.s) = 1
-       [] nm = "new_exact_default" -> op.cls \in ExactClasses
+       [] nm = "new_exact" -> /\ op.cls \in ExactClasses /\ Len(op.n) = 4 /\ Len(op.s) = 1
+                              /\ op.cls = "CustomPadding" => \A i \in 1..4 : op.n[i] >= 0
+       [] nm = "new_exact_default" -> op.cls \in ExactClasses \ {"CustomPadding"}
+       [] nm = "new_abstract" -> Len(op.s) <= 1
        [] nm = "resolve" -> o.k = "aligned" /\ Len(op.n) = 2 /\ op.n[1] >= 1 /\ op.n[2] >= 1
        [] nm \in {"to_exact", "get_padded_size", "exact_dims", "pad"} -> IsPad(o) /\ rsOK
-       [] nm = "dimensions" -> o.k = "exact"
+       [] nm = "dimensions" -> o.k = "exact" /\ ~IsCustom(o)
        [] nm = "min_size" -> o.k = "aligned"
-       [] nm \in ProbeOps -> o # NoObj /\ o.k # "str" /\ Len(op.s) = 1 /\ op.s[1] \in AttrNames(o)
+       [] nm \in ProbeOps -> o # NoObj /\ o.k # "str" /\ ~IsCustom(o) /\ Len(op.s) = 1 /\ op.s[1] \in AttrNames(o)
        [] nm = "rebuild" ->
-            /\ IsPad(o) /\ Len(op.s) >= 1
+            /\ IsPad(o) /\ ~IsCustom(o) /\ Len(op.s) >= 1
             /\ \/ op.s[1] = "none"
                \/ IdxIn(IntFields(o), op.s[1]) > 0 /\ Len(op.n) = 1
                \/ /\ IdxIn(StrFields(o), op.s[1]) > 0 /\ Len(op.s) = 2
